@@ -9,6 +9,8 @@ import (
 	"math/rand"
 	"net/http"
 	"strings"
+	"sync"
+	"sync/atomic"
 
 	"github.com/ipfs/go-cid"
 	cidlink "github.com/ipld/go-ipld-prime/linking/cid"
@@ -168,9 +170,98 @@ func (cs c03Case) tamper(r *rand.Rand, t headTamper) *head.SignedHead {
 }
 
 func runC03(c *vf.Ctx) {
+	c03PublisherRace(c)
 	c03Codec(c)
 	c03Bytes(c)
 	c03EndToEnd(c)
+}
+
+// the publisher signs the CURRENT root on every head request, also while SetRoot races with head requests
+func c03PublisherRace(c *vf.Ctx) {
+	const sub = "publisher-head-under-setroot"
+	if !c.Active(sub) {
+		return
+	}
+	n := c.N(8, 80)
+	for i := 0; i < n; i++ {
+		if !c.Mine(sub, i) {
+			continue
+		}
+		r := c.Rand(sub, i)
+		id := Keys()[KeyTypes[i%len(KeyTypes)]][0]
+		topic := c03Topics[r.Intn(len(c03Topics))]
+		c.Cur(sub, i, id.String())
+		st := NewStore()
+		chain, err := NewChain(r, st, 40, id.ID, linkProto(multihash.SHA2_256, -1))
+		if err != nil {
+			continue
+		}
+		front, err := NewFront(c, id, st, MountPlain, topic)
+		if err != nil {
+			continue
+		}
+		u := front.URL.JoinPath("/ipni/v1/ad", "head").String()
+		var setIdx atomic.Int64 // index of the last root whose SetRoot has RETURNED
+		front.Pub.SetRoot(chain.Cids[0])
+		stop := make(chan struct{})
+		var wg sync.WaitGroup
+		var fmu sync.Mutex
+		failed := false
+		fail := func(key, detail string) {
+			fmu.Lock()
+			defer fmu.Unlock()
+			if !failed {
+				failed = true
+				c.Fail(sub, i, key, detail, map[string]any{"publisher": id.String(), "topic": topic})
+			}
+		}
+		checkHead := func(minIdx int64) {
+			b, err := httpGet(u)
+			if err != nil {
+				fail("publisher-head-request-failed", err.Error())
+				return
+			}
+			h, err := head.Decode(bytes.NewReader(b))
+			if err != nil {
+				fail("publisher-serves-undecodable-head", err.Error())
+				return
+			}
+			signer, err := h.Validate()
+			if err != nil || signer != id.ID {
+				fail("publisher-serves-invalid-head:"+id.Type, fmt.Sprint(err))
+				return
+			}
+			pos := int64(chain.Pos(h.Head.(cidlink.Link).Cid))
+			if pos < minIdx {
+				fail("publisher-serves-stale-head", fmt.Sprintf("head #%d served although SetRoot(#%d) had returned before the request was sent", pos, minIdx))
+			}
+		}
+		for g := 0; g < 6; g++ {
+			wg.Add(1)
+			go func() {
+				defer wg.Done()
+				for {
+					select {
+					case <-stop:
+						return
+					default:
+					}
+					checkHead(setIdx.Load())
+				}
+			}()
+		}
+		for k := 1; k < len(chain.Cids); k++ {
+			front.Pub.SetRoot(chain.Cids[k])
+			setIdx.Store(int64(k))
+			checkHead(int64(k))
+			c.Inc("setroot_then_head_checks")
+		}
+		close(stop)
+		wg.Wait()
+		front.Close()
+		c.Eval(len(chain.Cids))
+		c.Distinct(sub, id.Type, topic)
+	}
 }
 
 // field-level tampering, decided by Validate + the signer comparison the caller makes
@@ -335,7 +426,7 @@ func c03EndToEnd(c *vf.Ctx) {
 			mode = MountDiscovery
 		}
 		idInAddrOnly := r.Intn(3) == 0
-		tk := r.Intn(len(headTampers) + 4)
+		tk := r.Intn(len(headTampers) + 6)
 		c.Cur(sub, i, fmt.Sprintf("%s mode=%s tamper=%d", cs.id, mode, tk))
 		pubStore := NewStore()
 		chain, err := NewChain(r, pubStore, 1+r.Intn(3), cs.id.ID, linkProto(multihash.SHA2_256, -1))
@@ -371,6 +462,7 @@ func c03EndToEnd(c *vf.Ctx) {
 		var body []byte
 		var tname string
 		expectReject := true
+		priorSync := false // the same subscriber first syncs a genuine, older head (its sync client is then reused)
 		switch {
 		case tk < len(headTampers):
 			t := headTampers[tk]
@@ -407,6 +499,9 @@ func c03EndToEnd(c *vf.Ctx) {
 					break
 				}
 			}
+		case tk == len(headTampers)+3 || tk == len(headTampers)+4:
+			tname = "replay-of-earlier-genuine-head-with-another-cid"
+			priorSync = len(chain.Cids) > 1
 		default:
 			tname = "untampered"
 			expectReject = false
@@ -419,6 +514,10 @@ func c03EndToEnd(c *vf.Ctx) {
 				}
 				return nil
 			}
+		}
+		if tname == "replay-of-earlier-genuine-head-with-another-cid" && !priorSync {
+			front.Close()
+			continue
 		}
 		dst := NewStore()
 		var hooks []string
@@ -437,6 +536,45 @@ func c03EndToEnd(c *vf.Ctx) {
 			return map[string]any{"publisher": cs.id.String(), "alteration": tname, "mount": mode.String(), "id_only_in_address": idInAddrOnly,
 				"genuine_head": string(genuine), "served_head": string(body), "requests": BlockRequests(front.Log()), "hooks": hooks}
 		}
+		var baseLatest cid.Cid
+		if priorSync {
+			// genuine sync of the oldest advertisement; then the publisher moves on and the response to the
+			// next head query is the EARLIER genuine response (same key, same signature) with the new head's CID
+			front.Pub.SetRoot(chain.Cids[0])
+			old, gerr := httpGet(front.URL.JoinPath("/ipni/v1/ad", "head").String())
+			if gerr != nil {
+				front.Close()
+				s.Close()
+				continue
+			}
+			if _, err := s.SyncAdChain(context.Background(), pi); err != nil {
+				c.Fail(sub, i, "genuine-head-rejected:"+cs.id.Type, err.Error(), nil)
+				front.Close()
+				s.Close()
+				continue
+			}
+			baseLatest = chain.Cids[0]
+			oh, derr := head.Decode(bytes.NewReader(old))
+			if derr != nil {
+				front.Close()
+				s.Close()
+				continue
+			}
+			oh.Head = cidlink.Link{Cid: chain.Head()}
+			body, _ = oh.Encode()
+			b := body
+			front.Pub.SetRoot(chain.Head())
+			front.Plan = func(ev ReqEvent) *Fault {
+				if ev.Rsrc == "head" {
+					return &Fault{Body: b, Label: tname}
+				}
+				return nil
+			}
+			front.ResetLog()
+			hooks = nil
+			c.Inc("e2e_replays_after_genuine_sync")
+		}
+		writesBefore := dst.NumWrites()
 		c.Guard(sub, i, wit, func() {
 			got, err := s.SyncAdChain(context.Background(), pi)
 			latest := s.GetLatestSync(cs.id.ID)
@@ -454,11 +592,11 @@ func c03EndToEnd(c *vf.Ctx) {
 				if err == nil {
 					c.Fail(sub, i, "altered-head-accepted:"+tname, fmt.Sprintf("SyncAdChain returned %s", got), wit())
 				}
-				if afterHead != 0 || len(hooks) != 0 || dst.NumWrites() != 0 {
-					c.Fail(sub, i, "altered-head-caused-sync:"+tname, fmt.Sprintf("%d block requests after head, %d hooks, %d writes", afterHead, len(hooks), dst.NumWrites()), wit())
+				if afterHead != 0 || len(hooks) != 0 || dst.NumWrites() != writesBefore {
+					c.Fail(sub, i, "altered-head-caused-sync:"+tname, fmt.Sprintf("%d block requests after head, %d hooks, %d writes", afterHead, len(hooks), dst.NumWrites()-writesBefore), wit())
 				}
-				if latest != nil {
-					c.Fail(sub, i, "altered-head-changed-latest:"+tname, latest.String(), wit())
+				if (latest == nil) != !baseLatest.Defined() || (latest != nil && !latest.(cidlink.Link).Cid.Equals(baseLatest)) {
+					c.Fail(sub, i, "altered-head-changed-latest:"+tname, fmt.Sprint(latest), wit())
 				}
 				c.Inc("e2e_rejections_expected")
 			} else {
